@@ -109,7 +109,8 @@ def _assigns(stmts):
         for n in ast.walk(st):
             if isinstance(n, ast.Return):
                 return True
-            if isinstance(n, ast.Assign) and _u(n) != 'out_arr[:] = 0':
+            if isinstance(n, ast.Assign) and _u(n) != 'out_arr[:] = 0' and \
+                    _u(n.targets[0]) != 'out.data[:]':
                 return True
     return False
 
@@ -132,6 +133,32 @@ def _src(v, node):
     if v[0] != 'src':
         raise ExtractionError('not one of x1_arr, x2_arr: ' + _u(node))
     return SRC[v[1]]
+
+
+def _term(node, env):
+    """`a * x1.data` -> 'a', `b * x2.data` -> 'b' (either factor order); else error."""
+    if isinstance(node, ast.BinOp) and isinstance(node.op, ast.Mult):
+        for c, v in ((node.left, node.right), (node.right, node.left)):
+            if _u(v) in ('x1.data', 'x2.data'):
+                cv = _val(c, env)
+                if cv == ('coef', 'a') and _u(v) == 'x1.data':
+                    return 'a'
+                if cv == ('coef', 'b') and _u(v) == 'x2.data':
+                    return 'b'
+    raise ExtractionError('not a term a * x1.data / b * x2.data: ' + _u(node))
+
+
+def _direct(node, env):
+    """Right-hand side of `out.data[:] = …` in the small-size branch."""
+    if isinstance(node, ast.Constant) and type(node.value) is int and node.value == 0:
+        return '(Stmt.lin false false)'
+    if isinstance(node, ast.BinOp) and isinstance(node.op, ast.Add):
+        ts = {_term(node.left, env), _term(node.right, env)}
+        if ts != {'a', 'b'}:
+            raise ExtractionError('direct expression ' + _u(node))
+        return '(Stmt.lin true true)'
+    t = _term(node, env)
+    return '(Stmt.lin true false)' if t == 'a' else '(Stmt.lin false true)'
 
 
 def _bind(env, target, val, node):
@@ -169,6 +196,9 @@ def _exec(stmts, env):
                                                 _exec(node.orelse + rest, env))
         return _seq('(Stmt.ite {} {} {})'.format(c, _exec(node.body, env),
                                                  _exec(node.orelse, env)), _exec(rest, env))
+    if isinstance(node, ast.Assign) and _u(node.targets[0]) == 'out.data[:]' and \
+            len(node.targets) == 1:
+        return _seq(_direct(node.value, env), _exec(rest, env))
     if isinstance(node, ast.Assign):
         if _u(node) == 'out_arr[:] = 0':
             return _seq('Stmt.zero', _exec(rest, env))
@@ -466,9 +496,13 @@ def extract(repo=core.REPO):
     reg = body[1]
     if not isinstance(reg, ast.If) or _u(reg.test) != 'size < THRESHOLD_SMALL':
         raise ExtractionError('regime test 1 changed')
-    small_body = [_u(s) for s in reg.body]
-    if small_body != ['out.data[:] = a * x1.data + b * x2.data', 'return']:
-        raise ExtractionError('small-size branch changed: ' + repr(small_body))
+    if not reg.body or _u(reg.body[-1]) != 'return':
+        raise ExtractionError('small-size branch does not end with `return`')
+    prog_small = _exec(list(reg.body), dict(BASE_ENV))   # direct NumPy expressions only
+    if 'Stmt.lin' not in prog_small or any(k in prog_small for k in
+                                           ('Stmt.scal', 'Stmt.axpy', 'Stmt.copy', 'Stmt.recurse',
+                                            'Stmt.zero')):
+        raise ExtractionError('small-size branch is not made of direct expressions: ' + prog_small)
     if len(reg.orelse) != 1 or not isinstance(reg.orelse[0], ast.If):
         raise ExtractionError('regime structure changed')
     reg2 = reg.orelse[0]
@@ -529,14 +563,17 @@ def blasTree : BTree :=
 /-- The alias/scalar dispatch of `_lincomb_impl`, in program order. -/
 def prog : Stmt :=
   {prog}
+/-- The body of the small-size branch (`out.data[:] = …` direct NumPy expressions). -/
+def progSmall : Stmt :=
+  {progsmall}
 
 def params : Params :=
   {{ thrSmall := thrSmall, thrMedium := thrMedium, fbGuard := fbGuard, zeroGuard := zeroGuard,
-     blasTree := blasTree, prog := prog }}
+     blasTree := blasTree, prog := prog, progSmall := progSmall }}
 
 end OdlModel.Gen.Lincomb
 '''.format(small=consts['THRESHOLD_SMALL'], medium=consts['THRESHOLD_MEDIUM'], guard=guard,
-           szg=zero_guard, prog=prog, btree=btree)
+           szg=zero_guard, prog=prog, btree=btree, progsmall=prog_small)
     return lean
 
 
